@@ -24,7 +24,7 @@ fn real_specs(tier: Tier, property: &str) -> Vec<Spec> {
         // C02's own space is the presentation space; the rotating presentations of the grammar scopes come on top
         return match tier {
             Tier::Quick => {
-                let mut v = vec![Spec::PSpace { max_fields: 3, recursion: true }, Spec::Files { k: 0, cap: 0 }, Spec::Names { extra: 1 }, Spec::Scaled { deep: false }, Spec::GP(crate::scopes::Scope { n: 1, t: 2, p: 2, k: 2, symmetry: false, only_cyclic: false })];
+                let mut v = vec![Spec::PSpace { max_fields: 3, recursion: true }, Spec::Files { k: 0, cap: 0 }, Spec::Names { extra: 1 }, Spec::Scaled { deep: false }, Spec::GP(crate::scopes::Scope { n: 1, t: 2, p: 2, k: 2, symmetry: false, only_cyclic: false }), g(2, 1, 2, 2), gsym(2, 2, 2, 2)];
                 v.extend(all_seed_nbh(0, 0, 1));
                 v
             }
